@@ -543,6 +543,14 @@ package engine
 //@ func (r ValueReplacer) Replace(d, cl, pos) (v, err)
 //@   ensures [C03] verbatim: err == nil && v == r.Value
 
+// A metavariable occurrence of the '+' pattern is replaced by what THIS metavariable captured at this site
+// (the replacer stored under its own name by the match), regenerated at the site's position; a
+// metavariable that captured nothing is an error, never a guess.
+//@ func (m MetavarReplacer) Replace(d, cl, pos) (v, err)
+//@   requires typing: dmap(d)[mvKey(m.Name)] != nil ==> dmap(d)[mvKey(m.Name)].typ == dyn("github.com/uber-go/gopatch/internal/engine.metavarData") && storedReplacer(dmap(d)[mvKey(m.Name)]) != nil
+//@   ensures [C03] unbound-metavariable-is-an-error: dmap(d)[mvKey(m.Name)] == nil ==> err != nil
+//@   at call engine.Replacer.Replace assert [C03] reproduces-what-this-metavariable-captured: dmap(d)[mvKey(m.Name)] != nil && arg0 == storedReplacer(dmap(d)[mvKey(m.Name)]) && dmap(arg1) == emptyMap() && arg3 == pos
+
 //@ func (r PtrReplacer) Replace(d, cl, pos) (v, err)
 //@   requires r.Replacer != nil
 //@   at call engine.Replacer.Replace assert [C03] target-built-from-the-same-bindings: arg0 == r.Replacer && arg1 == d && arg3 == pos
